@@ -72,6 +72,15 @@ class Ctx:
         self.extra_cov = {}
         self.exhaustive = None
         self.known = load_known(prop)
+        # replay files of earlier runs of this property are stale
+        rd = os.path.join(VERIF, "replay")
+        if os.path.isdir(rd) and not os.environ.get("VERIF_KEEP_REPLAY"):
+            for f in os.listdir(rd):
+                if f.startswith(prop + "-"):
+                    try:
+                        os.remove(os.path.join(rd, f))
+                    except OSError:
+                        pass
 
     # ---------------------------------------------------------------- paths
     def path(self, *p):
